@@ -24,7 +24,7 @@ func init() {
 }
 
 type c02Fault struct {
-	Kind  string `json:"kind"`  // none | db-error | drop-before | drop-after | register-conflict | register-fail | register-noreply | report-fail
+	Kind  string `json:"kind"`  // none | db-error | drop-before | drop-after | register-conflict | register-fail | register-fail-nocode | register-noreply | report-fail
 	Pos   int    `json:"pos"`   // index into the baseline command list of the proxied connection (db faults)
 	Code  int    `json:"code"`  // MySQL error number for db-error
 	Times int    `json:"times"` // report-fail: how many reports are refused
@@ -309,7 +309,9 @@ func c02Batch(r *vc.Run, e int, progs []*atCase, noReplyOnly bool) {
 				faults = append(faults, c02Fault{Kind: "drop-before", Pos: k, What: j.Kind})
 				faults = append(faults, c02Fault{Kind: "drop-after", Pos: k, What: j.Kind})
 			}
-			faults = append(faults, c02Fault{Kind: "register-conflict"}, c02Fault{Kind: "register-fail"})
+			// refusals: lock conflict, a coded failure, and a failed result that carries no transaction-exception code
+			// (what the coordinator answers when the registration fails with something else than a TransactionException)
+			faults = append(faults, c02Fault{Kind: "register-conflict"}, c02Fault{Kind: "register-fail"}, c02Fault{Kind: "register-fail-nocode"})
 			// report failing: combine with a failure at the undo insert / commit (a registered branch that then fails)
 			for k, j := range cmds {
 				if (j.Kind == "INSERT" && strings.EqualFold(j.Table, "undo_log")) || j.Kind == "COMMIT" {
@@ -381,6 +383,12 @@ func c02Run(r *vc.Run, env *atEnv, p *atCase, run int, f c02Fault) *atOutcome {
 				delivered = true
 				mu.Unlock()
 				q.ReplyFail("branch register failed by script", 6)
+				return true
+			case "register-fail-nocode":
+				mu.Lock()
+				delivered = true
+				mu.Unlock()
+				q.ReplyFail("branch register failed by script: store unavailable", 0)
 				return true
 			case "register-noreply":
 				mu.Lock()
